@@ -194,7 +194,8 @@ theorem C02_flush_promotes (s : Db) :
   unfold Db.flush
   simp only []
   split
-  · exact ⟨rfl, rfl⟩
+  · simp only []
+    split <;> exact ⟨trivial, rfl⟩
   · simp only []
     refine ⟨trivial, ?_⟩
     rw [(markClean_fold _ _).1, (markClean_fold _ _).2]
